@@ -14,6 +14,7 @@ import (
 	"os"
 	"strconv"
 	"strings"
+	"time"
 )
 
 type bytesModel struct {
@@ -158,6 +159,10 @@ func Observe(name string, v uint64) {
 
 // Note adds a line to the ghost log shown with counterexamples.
 func Note(msg string) {}
+
+// Yield lets every other goroutine run until it blocks (engine: exactly that;
+// natively: a short sleep).
+func Yield() { time.Sleep(2 * time.Millisecond) }
 
 // Panics runs f and reports whether it panicked (any panic value).
 func Panics(f func()) (p bool) {
